@@ -232,7 +232,7 @@ func main() {
 	tree := gitDescribe()
 
 	if *replay != "" {
-		if b, err := os.ReadFile(*replay); err == nil && bytes.Contains(b, []byte(`"oracle": "C14.data-race`)) {
+		if b, err := os.ReadFile(*replay); err == nil && bytes.Contains(b, []byte(`.data-race"`)) && bytes.Contains(b, []byte(`"scenario": "race-freerun"`)) {
 			os.Exit(replayRace(raceBin, prop, *replay))
 		}
 		os.Exit(doReplay(bin, prop, *replay, true))
@@ -404,7 +404,7 @@ func main() {
 			continue
 		}
 		rc := 0
-		if strings.HasPrefix(v.Oracle, "C14.data-race") {
+		if strings.HasSuffix(v.Oracle, ".data-race") {
 			rc = 1 // the race report itself is the evidence; happens-before detection does not need the interleaving to recur
 		} else {
 			rc = doReplay(bin, prop, v.Replay, false)
@@ -762,10 +762,10 @@ func runRace(raceBin, prop string, seed int, tier, outDir, replayDir, tree strin
 			seen[rep.Key] = true
 			p := filepath.Join(replayDir, fmt.Sprintf("%s-%d-race-%s.json", prop, seed, sanitizeName(rep.Key)))
 			rf := map[string]any{"property": prop, "scenario": "race-freerun", "seed": seed, "worker": w, "workers": workers, "runs_per_worker": runsPer,
-				"oracle": "C14.data-race", "key": rep.Key, "msg": "the race detector reported a data race involving relic code", "report": strings.Split(rep.Text, "\n"), "tree": tree}
+				"oracle": prop + ".data-race", "key": rep.Key, "msg": "the race detector reported a data race involving relic code", "report": strings.Split(rep.Text, "\n"), "tree": tree}
 			b, _ := json.MarshalIndent(rf, "", " ")
 			os.WriteFile(p, b, 0o644)
-			viols = append(viols, violation{Run: 100000 + w, Scenario: "race-freerun", Oracle: "C14.data-race", Key: rep.Key,
+			viols = append(viols, violation{Run: 100000 + w, Scenario: "race-freerun", Oracle: prop + ".data-race", Key: rep.Key,
 				Msg: "data race between " + rep.Key + " (full report in the replay file)", Replay: p})
 		}
 	}
